@@ -52,6 +52,15 @@ func checkC04Units(t interface{ Fatalf(string, ...any) }, cs []Case, ps []*winte
 			ev.Class("skipped-monitor-violation(judged-by-C01/C02)")
 			continue
 		}
+		for _, x := range tr {
+			if strings.Contains(x, "X fuel") {
+				bad = true // the interpreter ran out of fuel (e.g. a mutant's endless loop): no reference result
+			}
+		}
+		if bad {
+			ev.Class("skipped-fuel-exhausted")
+			continue
+		}
 		csrc, err := tl.GenC(c.Pkg, []byte(c.Src))
 		if err != nil {
 			ev.Fail("C04", "program", c, "the checker accepts the program but wuffs-c gen fails: "+err.Error())
